@@ -1,5 +1,5 @@
 """Per-property check pipelines (see DESIGN.md section 4)."""
-import json, os
+import json, os, subprocess
 from vlib import *   # noqa
 
 S = spec_path
@@ -519,3 +519,237 @@ def check_C13(ctx):
             "computes |A|^2 exactly from a closed form that MC_SpectralGrid checks against polynomial multiplication; measured ln|H| must be "
             "within 0.001 neper of ln K - (s/2) ln|A|^2 within 100 dB of the peak; response finite and decaying",
             {"measurable_points": pts})
+
+
+# --------------------------------------------------------------------------- Engine-level: C03, C11, C15, C16, C17
+
+PROBE = os.path.join(VERIF, "probe")
+PROBE_BIN = os.path.join(HARNESS, "target", "probe", "release", "probe")
+
+
+def must_violate(ctx, name, cfg, tla, inv):
+    """Non-vacuity: a deliberately wrong design must be caught by TLC."""
+    r = run_tlc(ctx, "nv_" + name, cfg, tla, workers=4, bfs=True, timeout=600)
+    if r.invariant != inv:
+        log(r.out[-1500:])
+        raise ToolError("non-vacuity check %s: TLC did not report a violation of %s" % (name, inv))
+    ctx.stage("NON-VACUITY " + name, violated=inv, states=r.distinct)
+    ctx.states += r.distinct
+    ctx.transitions += r.generated
+
+
+def engine_histories(ctx, n, depth, voice, tag, seed_off=0):
+    cfgp = ctx.path("Gen_Engine_%s.cfg" % tag)
+    open(cfgp, "w").write(open(S("gen", "Gen_Engine.cfg")).read().replace("L = 24", "L = %d" % depth))
+    saved = ctx.seed
+    ctx.seed = saved + seed_off
+    cases = gen(ctx, "Engine_" + tag, cfgp, S("gen", "Gen_Engine.tla"), simulate=(n, depth + 2))
+    ctx.seed = saved
+    return replay_stage(ctx, "api-histories-" + tag, "engine-replay", cases, extra_args=[voice], timeout=7200,
+                        distinct_key=lambda c: json.dumps([(h["act"], h.get("e"), h.get("field"), h.get("s"), h.get("v"), h.get("u"), h.get("g")) for h in c["hist"]]))
+
+
+def rendered_voice_file(ctx):
+    """One member of the voice family (3 streams, GV on MCP and LF0) written to the work directory."""
+    cfgp = ctx.path("Gen_Voice_one.cfg")
+    open(cfgp, "w").write("CONSTANTS NStates = {2}  Shapes = {2}  Salts = {0}  Stages = {0}  WinSets = {3}\nSPECIFICATION Spec\nINVARIANT Emit\nCHECK_DEADLOCK FALSE\n")
+    cases = gen(ctx, "Voice_one", cfgp, S("gen", "Gen_Voice.tla"), workers=2)
+    pick = [c for c in cases if c["fam"]["nstream"] == 3 and c["fam"]["gv"] and c["fam"]["quoted"]][0]
+    cpath = ctx.path("one_voice.json")
+    json.dump(pick["voice"], open(cpath, "w"))
+    vpath = ctx.path("rendered.htsvoice")
+    p = run_jbv(["render", cpath, vpath])
+    if p.returncode != 0:
+        raise ToolError("render failed: " + p.stderr[-500:])
+    return vpath
+
+
+def check_C03(ctx):
+    q = ctx.quick()
+    mc(ctx, "Engine", S("mc", "MC_Engine.cfg"), S("mc", "MC_Engine.tla"), workers=8)
+    mc(ctx, "EngineConc", S("mc", "MC_EngineConc.cfg"), S("mc", "MC_EngineConc.tla"), workers=8)
+    must_violate(ctx, "Engine(Hidden)", S("mc", "MC_Engine_hidden.cfg"), S("mc", "MC_Engine.tla"), "Deterministic")
+    must_violate(ctx, "EngineConc(Hidden)", S("mc", "MC_EngineConc_hidden.cfg"), S("mc", "MC_EngineConc.tla"), "Deterministic")
+    engine_histories(ctx, 60 if q else 1200, 24, BUNDLED, "bundled")
+    engine_histories(ctx, 60 if q else 1200, 24, rendered_voice_file(ctx), "rendered", seed_off=1)
+    # the probe: compile-time Send + Sync, then k threads on one shared engine
+    env = dict(os.environ); env["CARGO_NET_OFFLINE"] = "true"
+    p = subprocess.run(["cargo", "build", "--release", "--quiet"], cwd=PROBE, env=env, stdout=subprocess.PIPE, stderr=subprocess.STDOUT, text=True)
+    if p.returncode != 0:
+        if "Send" in p.stdout or "Sync" in p.stdout or "cannot be shared between threads" in p.stdout or "cannot be sent between threads" in p.stdout:
+            ctx.violation("probe:send-sync", "the thread-safety probe does not compile while the harness does: " + p.stdout[-600:], {"compiler_output": p.stdout[-3000:]})
+        else:
+            log(p.stdout[-3000:])
+            raise ToolError("probe build failed for another reason")
+    else:
+        tpath = ctx.path("conc.ndjson")
+        r = subprocess.run([PROBE_BIN, str(ctx.seed), str(16 if q else 400), tpath, BUNDLED], stdout=subprocess.PIPE, stderr=subprocess.PIPE, text=True, timeout=7200)
+        if r.returncode != 0:
+            log(r.stderr[-2000:])
+            raise ToolError("probe run failed")
+        trace_stage(ctx, "threads", S("trace", "Trace_Conc.cfg"), S("trace", "Trace_Conc.tla"), tpath, reset_ev="snap",
+                    keyfn=lambda e, run: "conc:%s" % ("panic" if e.get("dg") == "panic" else "determinism-or-settings"))
+    unsafe = subprocess.run("grep -rn 'unsafe' /repo/src --include=*.rs | grep -v fir_simd | wc -l", shell=True, stdout=subprocess.PIPE, text=True).stdout.strip()
+    ctx.assumptions += ["memory-level data races that never change an output are invisible to trace validation; occurrences of `unsafe` in /repo/src outside the nightly-only simd file: %s" % unsafe,
+                        "condition fields take two abstract values each (default / one alternative) in the API histories"]
+    return ("model_checking",
+            "MC: Engine machine (determinism, call purity, setter locality, frozen generators) and EngineConc (all interleavings of 3 threads); "
+            "both with Hidden=TRUE must produce a counterexample.  S->I: TLC -simulate API histories (setters, clones, syntheses, two "
+            "interleaved live generators, 8 utterance forms) replayed on the bundled and a rendered voice with every artefact compared per content key, "
+            "tables merged across histories.  I->S: 2..16 threads on one Arc<Engine>, validated against Trace_Conc",
+            {})
+
+
+def _engine_only(ctx, what):
+    q = ctx.quick()
+    mc(ctx, "Deps", S("mc", "MC_Deps.cfg"), S("mc", "MC_Deps.tla"), workers=8)
+    engine_histories(ctx, 80 if q else 1500, 24, BUNDLED, "bundled")
+    engine_histories(ctx, 80 if q else 1500, 24, rendered_voice_file(ctx), "rendered", seed_off=1)
+
+
+def laws_stage(ctx, mode, n, voices, name=None, keyfn=None, reset_ev="__none__"):
+    tpath = ctx.path("%s.ndjson" % (name or mode))
+    p = run_jbv(["laws-record", mode, ctx.seed, n, tpath] + voices, timeout=7200)
+    if p.returncode != 0:
+        log(p.stderr[-2000:])
+        raise ToolError("laws-record %s failed" % mode)
+    trace_stage(ctx, name or mode, S("trace", "Trace_Laws.cfg"), S("trace", "Trace_Laws.tla"), tpath, reset_ev=reset_ev, keyfn=keyfn, timeout=7200)
+    return read_jsonl(tpath)
+
+
+def check_C11(ctx):
+    q = ctx.quick()
+    _engine_only(ctx, "C11")
+    lab = label_table_json(ctx)
+    cases = gen(ctx, "Pipeline_thr", S("gen", "Gen_Pipeline_thr_quick.cfg" if q else "Gen_Pipeline_thr.cfg"), S("gen", "Gen_Pipeline.tla"), workers=12, timeout=3000)
+    runs = [c for c in cases if c["kind"] == "run" and c["unique"]]
+    mixed = sum(1 for c in runs if any(c["mask"]) and not all(c["mask"]))
+    replay_stage(ctx, "threshold-sweep", "c01-replay", cases, extra_args=[lab], timeout=7200,
+                 distinct_key=lambda c: json.dumps([c.get("fam"), c.get("labels"), c.get("cond", {}).get("thr8")]))
+    ctx.stage("mask coverage", runs=len(runs), partly_voiced=mixed)
+    if mixed == 0:
+        raise ToolError("vacuous threshold sweep")
+    evs = laws_stage(ctx, "voicing", 12 if q else 300, perturbed_voices(ctx, 2, "msd"), keyfn=lambda e, run: "voicing:%s" % e.get("ev"))
+    ctx.assumptions += ["thresholds in the trace direction are f32-representable (k/1024, a state's voicing weight, or one f32 ulp around it) so that "
+                        "'exceeds' is decided exactly on bit patterns in TLA+; rendered voices use voicing weights 1/8..7/8 and thresholds 0..8 eighths"]
+    return ("model_checking",
+            "MC: dependency-map isolation laws over all conditions (MC_Deps). S->I: rendered voices x all 9 thresholds k/8 incl. values equal to a "
+            "voicing weight: NODATA pattern of the hooked log-F0 trajectory equals the specification's strict-comparison mask; API histories: "
+            "trajectories with equal keys bit-equal (a stream's threshold / GV weight is not in another stream's key). I->S: bundled and "
+            "voicing-perturbed voices, ascending threshold sweeps: voiced iff msd_bits > thr_bits, monotone, other streams' digests unchanged",
+            {"partly_voiced_runs": mixed})
+
+
+def check_C15(ctx):
+    q = ctx.quick()
+    _engine_only(ctx, "C15")
+    evs = laws_stage(ctx, "halftone", 12 if q else 400, perturbed_voices(ctx, 2, "all"), keyfn=lambda e, run: "halftone:%s" % ("shift" if e.get("diffs") else "isolation"))
+    n = sum(len(e.get("diffs", [])) for e in evs)
+    ctx.assumptions += ["h is a multiple of 1/8 in [-24,24] so the expected shift is an integer number of nano-units in TLA+ (7220283 per eighth, tolerance 3+|h8| nano)",
+                        "whether a state mean reaches the 20 Hz..20 kHz limit is decided by the harness from Models::model_stream(1) (then only the one-sided bound is demanded)"]
+    return ("model_checking",
+            "MC_Deps: the half tone appears only in the log-F0 trajectory key; API histories check that on the code. I->S: bundled/perturbed voices with GV on, "
+            "random in-envelope conditions, h in eighths: per voiced frame lf0_h - lf0_0 = h ln2/12 (nano-units), durations, NODATA pattern, spectrum and "
+            "low-pass trajectory digests and length unchanged; h = 0 identity",
+            {"voiced_frames_compared": n})
+
+
+def check_C16(ctx):
+    q = ctx.quick()
+    _engine_only(ctx, "C16")
+    voices = perturbed_voices(ctx, 1, "all") + [rendered_lsp_voice(ctx)]
+    evs = laws_stage(ctx, "gain", 12 if q else 400, voices, keyfn=lambda e, run: "gain:%s" % e.get("ev"))
+    ctx.assumptions += ["gain measured at the largest-magnitude sample of the 0 dB waveform; law stated in dB so 10^(v/20) is never computed outside jbonsai"]
+    return ("model_checking",
+            "MC_Deps: the volume is in no duration / trajectory / shape key. I->S: mel-cepstral (bundled, perturbed) and LSP (rendered) voices, v in [-60,60] dB: "
+            "measured gain within 20 micro-dB of v, every sample equal to ratio x the 0 dB sample within 1e-6, get_volume within 1e-7 dB, trajectories and length unchanged",
+            {})
+
+
+def rendered_lsp_voice(ctx):
+    cfgp = ctx.path("Gen_Voice_lsp.cfg")
+    open(cfgp, "w").write("CONSTANTS NStates = {2}  Shapes = {3}  Salts = {1}  Stages = {2}  WinSets = {3}\nSPECIFICATION Spec\nINVARIANT Emit\nCHECK_DEADLOCK FALSE\n")
+    cases = gen(ctx, "Voice_lsp", cfgp, S("gen", "Gen_Voice.tla"), workers=2)
+    pick = [c for c in cases if c["fam"]["nstream"] == 3 and not c["fam"]["gv"]][0]
+    cpath = ctx.path("lsp_voice.json")
+    json.dump(pick["voice"], open(cpath, "w"))
+    vpath = ctx.path("rendered_lsp.htsvoice")
+    p = run_jbv(["render", cpath, vpath])
+    if p.returncode != 0:
+        raise ToolError("render failed")
+    return vpath
+
+
+def check_C12(ctx):
+    q = ctx.quick()
+    _engine_only(ctx, "C12")
+    evs = laws_stage(ctx, "gv", 8 if q else 250, perturbed_voices(ctx, 2, "all"), keyfn=lambda e, run: "gv:%s" % e.get("ev"))
+    g = [e for e in evs if e.get("ev") == "gv"]
+    big = [e for e in g if e["eligible"] >= 100]
+    if not big:
+        raise ToolError("vacuous GV law: no sweep with >= 100 eligible frames")
+    worst = max(abs(e["ratio_ppm"] - 250000 * e["wq"]) / (2500.0 * e["wq"]) for e in big)
+    ctx.stage("GV law margin", events=len(g), with_100_eligible=len(big), worst_deviation_percent=round(worst, 2))
+    ctx.assumptions += ["variance measured over voiced frames of labels outside the GV-off contexts (public switch + NODATA of the hooked trajectory); ratio var/gv_mean logged in ppm"]
+    return ("model_checking",
+            "MC_Deps: a stream without GV has no GV weight in its key (checked on the code by the API histories). I->S: utterances of 10..60 corpus labels on bundled / perturbed voices, "
+            "weights 1/4..2 per GV stream and coefficient: variance over eligible frames within 20 % of weight x GV mean when >= 100 frames are eligible, strictly increasing "
+            "along the sweep; silence-only utterance equals the ML trajectory; non-GV stream unaffected",
+            {"worst_deviation_percent": round(worst, 2)})
+
+
+# --------------------------------------------------------------------------- C17
+
+def label_oracle(ctx):
+    import re
+    s = open(S("LabelLine.tla")).read()
+    labs = json.load(open(label_table_json(ctx)))
+    tt = re.search(r"TimeTokens == <<(.*?)>>", s, re.S).group(1)
+    times = re.findall(r'"([^"]*)"', tt)
+    lt = re.search(r"LabelTokens == <<(.*?)>>", s, re.S).group(1)
+    toks = []
+    for part in lt.split(","):
+        part = part.strip()
+        m = re.fullmatch(r'LabelTable\[(\d+)\](\s*\\o\s*"([^"]*)")?', part)
+        if m:
+            toks.append(labs[int(m.group(1)) - 1] + (m.group(3) or ""))
+        else:
+            toks.append(re.fullmatch(r'"([^"]*)"', part).group(1))
+    tp = ctx.path("label_tokens.json")
+    json.dump({"time": times, "label": toks}, open(tp, "w"))
+    op = ctx.path("label_oracle.json")
+    p = run_jbv(["label-oracle", tp, op])
+    if p.returncode != 0:
+        raise ToolError("label-oracle failed")
+    o = json.load(open(op))
+    if not o["extra_rejected"]:
+        raise ToolError("oracle: jlabel accepts a label followed by ' extra' - the TTLX shape would need another expectation")
+    return op
+
+
+def check_C17(ctx):
+    q = ctx.quick()
+    mc(ctx, "Deps", S("mc", "MC_Deps.cfg"), S("mc", "MC_Deps.tla"), workers=8)
+    engine_histories(ctx, 60 if q else 1000, 24, BUNDLED, "bundled")
+    op = label_oracle(ctx)
+    cases = gen(ctx, "LabelLine", S("gen", "Gen_LabelLine.cfg" if q else "Gen_LabelLine_thorough.cfg"), S("gen", "Gen_LabelLine.tla"),
+                workers=8, env={"ORACLE": op}, timeout=3000)
+    nerr = sum(1 for c in cases if c["expect"]["kind"] == "err")
+    replay_stage(ctx, "label-text", "c17-replay", cases, extra_args=[BUNDLED], timeout=7200,
+                 distinct_key=lambda c: json.dumps([c["form"], c["text"]]))
+    if nerr == 0 or nerr == len(cases):
+        raise ToolError("vacuous label-line cases")
+    tp = record_stage(ctx, "corruptions", "c17-record", [ctx.seed, 400 if q else 20000], timeout=7200) if False else None
+    tpath = ctx.path("corruptions.ndjson")
+    p = run_jbv(["c17-record", ctx.seed, 400 if q else 20000, tpath, BUNDLED], timeout=7200)
+    if p.returncode != 0:
+        raise ToolError("c17-record failed")
+    trace_stage(ctx, "corruptions", S("trace", "Trace_Laws.cfg"), S("trace", "Trace_Laws.tla"), tpath, reset_ev="__none__",
+                keyfn=lambda e, run: "corrupt:%s" % e.get("outcome", "")[:80])
+    ctx.assumptions += ["'parsable' is what str::parse::<f64> and jlabel accept (oracles exported by `jbv label-oracle`, sanity-checked in the specification)",
+                        "alignment is off in the error cases (times such as inf / NaN under alignment are outside C17 and C09)"]
+    return ("model_checking",
+            "MC_Deps: input form and (without alignment) time stamps are in no content key; API histories check that over 8 utterance forms. S->I: every utterance of "
+            "<= 2 lines over 10 line shapes x time tokens x label tokens x {slice, vec, array}: outcome ok/err as LabelLine!Classify says, ok waveforms bit-equal to the "
+            "parsed-label form, never a panic. I->S: random corruptions of corpus lines (deletion, duplication, unicode, truncation, huge/negative/NaN times, extra spaces)",
+            {"expected_err_cases": nerr})
